@@ -73,4 +73,11 @@ CHECKS = {
         "Argument half (c09_args, when present): one row per err_t function transcribed from the \\expect{ERR_...} clauses; every documented "
         "domain violation must yield the documented error class without crash, and a failed authenticated unwrap must not leave plaintext/key in dest.",
    note="Faults are injected only at malloc/calloc/realloc called from libbee2; most high-level calls allocate exactly one blob."),
+ "C12": dict(level="exploration",
+   technique="executable condition lists of the standards as oracles over perturbed standard parameter sets + exhaustive windows (dates, primes, polynomials) under ASan",
+   text="Every standard parameter set of bign, bign96, g12s, stb99, dstu, pfok and bels must validate and each single-field alteration is "
+        "decided by the model's condition list; public keys on/off curve/twist/out of range, key pairs d in {0,1,q-1,q,q+1}; dates exhaustively "
+        "over every octet pair and every valid date of a century; priIsPrimeW/priIsPrime/priNextPrimeW exhaustively on [0,2^17) (thorough 2^20) and "
+        "around 2^32, Carmichael numbers, strong pseudoprimes, products of large primes; ppIsIrred on all 131072 polynomials of degree <= 16.",
+   note="Conditions the headers do not settle are executed but not judged; 'accepts every prime' is sampled above 2^33."),
 }
